@@ -234,6 +234,8 @@ func (h *H) probes(mult int) {
 		h.probe("CFListChannelPayload.UnmarshalBinary", r.Bytes(15), &cc, func(in []byte) error { return cc.UnmarshalBinary(false, in) })
 		var cm lorawan.CFListChannelMaskPayload
 		h.probe("CFListChannelMaskPayload.UnmarshalBinary", r.Bytes(2*(1+r.Intn(7))), &cm, func(in []byte) error { return cm.UnmarshalBinary(false, in) })
+		var cm15 lorawan.CFListChannelMaskPayload
+		h.probe("CFListChannelMaskPayload.UnmarshalBinary", append(r.Bytes(12), 0xaa, 0xbb, 0xcc), &cm15, func(in []byte) error { return cm15.UnmarshalBinary(false, in) })
 		w02 := r.Bytes(14)
 		w02[0] = byte(2 * r.Intn(2))
 		var r02 lorawan.RejoinRequestType02Payload
